@@ -114,7 +114,7 @@ def reference_cases(tier, rng):
     from datetime import datetime, timezone, timedelta
     ALL = dict(utf8=1, reqtls=1, binmime=1, dsn=1, rrvs=1)
     cases = []
-    FULL = b" SIZE=1000 BODY=BINARYMIME SMTPUTF8 REQUIRETLS RET=HDRS ENVID=QQ314159 AUTH=<>"
+    FULL = b" SIZE=1000 BODY=BINARYMIME SMTPUTF8 RET=HDRS ENVID=QQ314159 AUTH=<>"     # (no REQUIRETLS: refused on plaintext, and two faulty parameters on one line are answered in map order)
     def mail_case(fl, toks, xp):
         # the line under test alone, or after an earlier MAIL (to another address) of the same connection that set every option:
         # answered 451 by the backend, refused for a faulty parameter, or accepted and then replaced — nothing of it may stick
@@ -156,7 +156,12 @@ def reference_cases(tier, rng):
         rng.shuffle(toks)
         xp = "M:body=%s,size=%d,reqtls=%d,utf8=%d,ret=%s,envid=%s,auth=%s" % (_hx(o["body"]), o["size"], o["reqtls"], o["utf8"], _hx(o["ret"]),
                                                                             _hx(o["envid"]), "nil" if o["auth"] is None else _hx(o["auth"]))
-        mail_case(ALL, toks, xp)
+        # REQUIRETLS is an extension of TLS-protected connections only (RFC 8689; advertised and honoured only there, 548a344): on a
+        # plaintext connection the parameter is refused like that of a disabled extension; under (implicit) TLS it is delivered
+        if o["reqtls"] and rng.random() < 0.5:
+            mail_case(ALL, toks, "REFUSED:M")
+        else:
+            mail_case(dict(ALL, tls="implicit") if o["reqtls"] else ALL, toks, xp)
     # SIZE values around the edges of 32- and 64-bit integers (RFC 1870 allows 20 digits): refused, or delivered exactly — never altered
     for v in (2 ** 31 - 1, 2 ** 31, 2 ** 32 - 1, 2 ** 32, 2 ** 32 + 5, 2 ** 63 - 1, 2 ** 63, 2 ** 64 - 100, 2 ** 64 - 1, 2 ** 64, 10 ** 19, 10 ** 20 - 1, 10 ** 25):
         for extra in ([], [b"BODY=8BITMIME"]):
